@@ -17,7 +17,7 @@ Local Open Scope nat_scope.
 
 Local Arguments NYield {C F W} w line it c.
 Local Arguments NDone {C F W} it c.
-Local Arguments NErr {C F W} f c.
+Local Arguments NErr {C F W} f it c.
 Local Arguments NPanic {C F W} site.
 Local Arguments NOOF {C F W}.
 
@@ -175,7 +175,7 @@ Qed.
 
 Definition nres_io (c : ctx) (r : nres ctx xfail (list dentry)) : Prop :=
   match r with
-  | NYield _ _ _ c' | NDone _ c' | NErr _ c' => io_same c c'
+  | NYield _ _ _ c' | NDone _ c' | NErr _ _ c' => io_same c c'
   | _ => True
   end.
 
@@ -208,7 +208,7 @@ Proof.
     eapply nres_io_trans; [|apply IH]. split; reflexivity.
   - apply IH.
   - pose proof (IH inner c) as Hi.
-    destruct (snext f inner c) as [w l inner' c'|it' c'|x c'|s|]; cbn [nres_io] in Hi |- *;
+    destruct (snext f inner c) as [w l inner' c'|it' c'|x it' c'|s|]; cbn [nres_io] in Hi |- *;
       try exact Hi.
     eapply nres_io_trans; [exact Hi|apply IH].
   - destruct (loop_var_value c (lvar ls)) as [i|]; [|exact I].
@@ -217,14 +217,14 @@ Proof.
       apply rng_only_io_same in E; [|exact E].
     destruct (Z.eqb z 0); (eapply nres_io_trans; [exact E|apply IH]).
   - pose proof (IH inner c) as Hi.
-    destruct (snext f inner c) as [w l inner' c'|it' c'|x c'|s|]; cbn [nres_io] in Hi |- *;
+    destruct (snext f inner c) as [w l inner' c'|it' c'|x it' c'|s|]; cbn [nres_io] in Hi |- *;
       try exact Hi.
     eapply nres_io_trans; [exact Hi|apply IH].
 Qed.
 
 Lemma snext_preserves : forall fuel it c r, snext fuel it c = r ->
   match r with
-  | NYield _ _ _ c' | NDone _ c' | NErr _ c' => couts c' = couts c /\ calt c' = calt c
+  | NYield _ _ _ c' | NDone _ c' | NErr _ _ c' => couts c' = couts c /\ calt c' = calt c
   | _ => True
   end.
 Proof.
@@ -272,8 +272,8 @@ Lemma get_row_unfold : forall fuel st, get_row fuel st =
           finish_row (with_iter_ctx st it' c'
                         [ {| de_entries := w; de_line := l; de_update_output := true |} ])
       | NDone it' c' => GRNone (with_iter_ctx st it' c' [])
-      | NErr (XFErr x) c' => GRErr x (with_iter_ctx st (i_iter st) c' [])
-      | NErr (XFPanic s) _ => GRPanic s
+      | NErr (XFErr x) it' c' => GRErr x (with_iter_ctx st it' c' [])
+      | NErr (XFPanic s) _ _ => GRPanic s
       | NPanic s => GRPanic s
       | NOOF => GROOF
       end
@@ -282,7 +282,7 @@ Lemma get_row_unfold : forall fuel st, get_row fuel st =
 Proof.
   intros fuel st. unfold Iter.get_row, finish_row.
   destruct (i_cache st) as [|d rest] eqn:Hc; [|rewrite ?Hc; reflexivity].
-  destruct (snext fuel (i_iter st) (i_ctx st)) as [w l it' c'|it' c'|[x|s] c'|s|]; reflexivity.
+  destruct (snext fuel (i_iter st) (i_ctx st)) as [w l it' c'|it' c'|[x|s] it' c'|s|]; reflexivity.
 Qed.
 
 (* finish_row yields a row or fails hard; it changes only i_prev and i_cache *)
@@ -314,17 +314,20 @@ Lemma get_row_inv : forall fuel st,
   | GRRow _ st1 =>
       io_same (i_ctx st) (i_ctx st1) /\ i_log st1 = i_log st /\ i_outidx st1 = i_outidx st /\
       i_nout st1 = i_nout st
-  | GRErr _ st1 =>
+  | GRErr x st1 =>
       io_same (i_ctx st) (i_ctx st1) /\ i_log st1 = i_log st /\ i_outidx st1 = i_outidx st /\
       i_nout st1 = i_nout st /\
-      i_cache st = [] /\ i_cache st1 = [] /\ i_iter st1 = i_iter st
+      i_cache st = [] /\ i_cache st1 = [] /\
+      (* the statement iterator is the one the failed call left behind (Stmt.v, NErr) *)
+      snext fuel (i_iter st) (i_ctx st) = NErr (XFErr x) (i_iter st1) (i_ctx st1) /\
+      i_prev st1 = i_prev st
   | _ => True
   end.
 Proof.
   intros fuel st. rewrite get_row_unfold.
   destruct (i_cache st) as [|d rest] eqn:Hc.
   - pose proof (snext_io fuel (i_iter st) (i_ctx st)) as Hio.
-    destruct (snext fuel (i_iter st) (i_ctx st)) as [w l it' c'|it' c'|[x|s] c'|s|] eqn:Hn;
+    destruct (snext fuel (i_iter st) (i_ctx st)) as [w l it' c'|it' c'|[x|s] it' c'|s|] eqn:Hn;
       cbn [nres_io] in Hio; try exact I.
     + match goal with |- context [finish_row ?sx] => pose proof (finish_row_inv sx) as Hf;
         destruct (finish_row sx) as [st2|er st2|x st2|s0|] end; try contradiction; try exact I.
@@ -332,7 +335,7 @@ Proof.
       rewrite H1, H3, H4, H5. auto.
     + split; [reflexivity|]. pose proof (snext_done_shape _ _ _ _ _ Hn) as Hs. subst it'.
       exists c'. split; reflexivity.
-    + cbn. auto 10.
+    + cbn. repeat split; auto; apply Hio.
   - pose proof (finish_row_inv st) as Hf.
     destruct (finish_row st) as [st2|er st2|x st2|s|]; try contradiction; try exact I.
     destruct Hf as [H1 [H2 [H3 [H4 H5]]]]. rewrite H1, H3, H4, H5. split; [apply io_same_refl|auto].
